@@ -6,7 +6,7 @@ from hypothesis import strategies as st
 
 from .. import gen
 from ..core import SubCheck, Violation
-from ..oracle import (lib, model_index, poscoded, ra_from_rows, py_sel, sel_kind, lazy_ra, LAZY_MODES,
+from ..oracle import (lib, model_index, poscoded, ra_from_rows, py_sel, sel_kind, lazy_ra, LAZY_MODES, np_rows,
                       expect_refused, expect_unchanged, snapshot, rows_equal, jsonable)
 from . import c02
 
@@ -195,6 +195,83 @@ def assign_case(draw, tier):
             "tlazy": draw(st.sampled_from([0, 0, 0, 1, 2, 3, 4])), "vlazy": draw(st.integers(0, 3))}
 
 
+# ---------------------------------------------------------------- value semantics on every element dtype
+
+WIDE = {"float64": [0.1, 1e300, -1e300, 1e-300, float("inf"), float("-inf"), float("nan"), 1 / 3, 2.5, -0.0, 7.0],
+        "float32": [0.1, 3e38, -3e38, 1e-38, float("inf"), float("-inf"), float("nan"), 1 / 3, 2.5, -0.0, 7.0]}
+
+
+def body_assign_dtype(case, ctx):
+    """the assigned VALUES arrive unchanged, whatever the element dtype (floats: inf / nan / wide magnitudes / non-dyadic)"""
+    from npstructures import RaggedArray
+    a, r, c, kind, pool = case["a"], case["r"], case["c"], case["vk"], case["pool"]
+    dt = a["dt"]
+    lens = a["lens"]
+    rows = np_rows(a)
+    cells, rkind = addressed(lens, r, c)
+    ctx.label(*gen.shape_labels(lens), "dt:" + dt, "v:" + kind, "r:" + sel_kind(r), "c:" + sel_kind(c))
+    idx = c02.build_index(r, c, "plain" if c is None else "pair")
+    ra = lazy_ra(rows, dt, case["tlazy"])
+    if cells is None:
+        ctx.nt()
+        expect_refused(lib(ra.__setitem__, idx, np.dtype(dt).type(pool[0])), "assign-dtype", index=repr(idx))
+        expect_unchanged(ra, rows, dt, "assign-dtype-refused")
+        return
+    flat = [x for row in cells for x in row]
+    k = len(cells)
+    pv = np.array(pool, dtype=dt)
+    exp = [x.copy() for x in rows]
+    if kind == "scalar" or rkind == "cell" or (kind in ("column", "ragged") and rkind != "rows"):
+        kind = "scalar"
+        value = pv[0]
+        for i, j in flat:
+            exp[i][j] = pv[0]
+    elif kind == "flat":
+        value = np.array([pv[t % len(pv)] for t in range(len(flat))], dtype=dt)
+        for t, (i, j) in enumerate(flat):
+            exp[i][j] = value[t]
+    elif kind == "column":
+        value = np.array([pv[t % len(pv)] for t in range(k)], dtype=dt).reshape(k, 1)
+        for t, row in enumerate(cells):
+            for i, j in row:
+                exp[i][j] = value[t, 0]
+    else:
+        vrows, t = [], 0
+        for row in cells:
+            vrows.append(np.array([pv[(t + u) % len(pv)] for u in range(len(row))], dtype=dt))
+            t += len(row)
+        value = lazy_ra(vrows, dt, case["vlazy"])
+        for row, vr in zip(cells, vrows):
+            for (i, j), v in zip(row, vr):
+                exp[i][j] = v
+    ctx.nt(0 < len(flat) and dt != "int64")
+    out = lib(ra.__setitem__, idx, value)
+    if not out.ok:
+        raise Violation("assign-dtype:unexpected-refusal", got=out.brief(), index=repr(idx), value_kind=kind)
+    got = lib(lambda: ([np.asarray(x) for x in ra], str(ra.dtype), [int(x) for x in ra.lengths]))
+    if not got.ok:
+        raise Violation("assign-dtype:array-unreadable-after", got=got.brief())
+    grows, gdt, glens = got.value
+    if glens != lens or not rows_equal(grows, exp):
+        raise Violation("assign-dtype:content", expected=jsonable([e.tolist() for e in exp]), got=jsonable([g.tolist() for g in grows]),
+                        index=repr(idx), value_kind=kind, dtype=dt)
+    if sum(lens) and gdt != dt:
+        raise Violation("assign-dtype:dtype-changed", got=gdt, expected=dt)
+
+
+@st.composite
+def assign_dtype_case(draw, tier):
+    dt = draw(st.sampled_from(["float64", "float64", "float32", "int8", "uint8", "bool", "int32", "uint64", "int16"]))
+    a = draw(gen.ragged(tier, dts=[dt]))
+    n = len(a["lens"])
+    L = max(a["lens"]) if a["lens"] else 0
+    e = st.sampled_from(WIDE[dt]) if dt in WIDE else gen.elem(dt)
+    return {"a": a, "r": draw(gen.rowsel(n, norepeat=True)), "c": draw(gen.colsel(L)),
+            "vk": draw(st.sampled_from(["scalar", "flat", "column", "column", "ragged"])),
+            "pool": draw(st.lists(e, min_size=1, max_size=6)),
+            "tlazy": draw(st.sampled_from([0, 0, 0, 1, 2, 3, 4])), "vlazy": draw(st.sampled_from([0, 0, 1, 2]))}
+
+
 # ---------------------------------------------------------------- boolean ragged mask
 
 def body_mask(case, ctx):
@@ -264,6 +341,8 @@ SUBCHECKS = [
     SubCheck("assign", body_assign, assign_case, quick=24000, thorough=1500000, shards_quick=14,
              doc="random shapes x repetition-free index grammar x 13 value kinds (incl. pending-view values and targets, "
                  "mismatching ragged values) vs coordinate model"),
+    SubCheck("assign-dtype", body_assign_dtype, assign_dtype_case, quick=8000, thorough=500000, shards_quick=5,
+             doc="scalar / flat / column / ragged values on every element dtype (floats: inf, nan, wide magnitudes, non-dyadic): values arrive unchanged"),
     SubCheck("assign-ragged-mask", body_mask, mask_case, quick=4000, thorough=300000, shards_quick=2,
              doc="ra[mask_ra] = scalar | flat values, masks fresh or pending views"),
     SubCheck("assign-enum", body_assign, kind="enum", chunks=enum_chunks, cases=enum_cases,
